@@ -105,6 +105,15 @@ def legacy_reply_program():
     return Contract(methods=tuple(ms), entry_points="")
 
 
+def recase_program():
+    """Handlers of different kinds whose names differ only by where a digit is separated: re-deriving a
+    method name from a message name (UpperCamel and back) maps one onto the other (C04)."""
+    a = (Arg("a", "u32"),)
+    # (pairs among exec / query / sudo cannot be built: the generated multitest proxy derives one method name for both)
+    ms = [Method("instantiate", "setup2", a), Method("exec", "setup_2", a), Method("sudo", "setup_2x", a)]
+    return Contract(methods=tuple(ms), entry_points="")
+
+
 def prefix_program():
     """Message names of one part that are proper prefixes of names of another part of the same kind,
     the longer-named part listed first (routing must compare whole names)."""
@@ -153,6 +162,7 @@ def programs(tier):
     out.append(("preply0", reply_program(), {"reply"}))
     out.append(("plegacy0", legacy_reply_program(), {"reply", "legacy"}))
     out.append(("pprefix0", prefix_program(), {"parts", "prefix"}))
+    out.append(("precase0", recase_program(), {"samename", "recase"}))
     for n in (0, 1, 2):
         out.append(("pparts%d" % n, parts_program(n), {"parts"}))
     KS = ["exec", "query", "sudo"]
